@@ -48,6 +48,9 @@ def run(ctx):
         ctx.add(o)
     for o in unchecked_obligations(ctx, sc):
         ctx.add(o)
+    from . import layout
+    from ..srules import S as _S
+    layout.tag_count_agreement(ctx, _S(ctx))
     witnesses(ctx)
 
 
